@@ -28,8 +28,8 @@ CLAIMED = {
         technique='Coq proof over executable Gallina models + differential correspondence + direct round-trip oracle',
         ref='7/C03'),
     'C04': dict(
-        text='39 theorems on the models of the OpenMetrics exposition (model/Expo.v) and parser (model/OMParser.v), for ARBITRARY names, label names, label values, help texts and exemplar labels: L1-L3 (unescape(escape s) = s; quoted text skipped by the scanner; the label block is read back exactly, also in OpenMetrics mode and behind a quoted metric name); L4 the whole sample line - series, value, optional timestamp, optional exemplar - is read back as exactly that sample (character state machine of _parse_remaining_text, brace scans, exemplar labels); L5 HELP/TYPE/UNIT lines are read back exactly and - through a general family_step lemma - documents of gauge, counter (with exemplars), summary, classic histogram (through _check_histogram), info and stateset families with pairwise non-clashing names parse back to exactly those families; refutation witnesses for the pinned defects (timestamp exponent, sample name, exemplar eligibility, quote toggle). Tie: byte-exact differential testing of the exposition against the extracted renderer and of the parser against the extracted parser, direct oracle parse(expose(r)) == collect(r) on generated registries (units, exemplars incl. ineligible ones, three timestamp forms) and parse(expose(parse(d))) == parse(d) on accepted documents.',
-        note='Partial: gaugehistogram and unknown families, timestamps on non-gauge families and the second direction rest on the correspondence and the direct oracle. Hypotheses of L4/L5 are CPython facts about the number tokens (checked per case) plus what the constructors guarantee. Four known findings (int not a double, two timestamp classes at one instant, mixed-class timestamps compared through float, Histogram with a negative first bound exposed with _count but no _sum - pinned by an existing test). Trusted: as C03 plus samples.Timestamp arithmetic.',
+        text='42 theorems on the models of the OpenMetrics exposition (model/Expo.v) and parser (model/OMParser.v), for ARBITRARY names, label names, label values, help texts and exemplar labels: L1-L3 (unescape(escape s) = s; quoted text skipped by the scanner; the label block is read back exactly, also in OpenMetrics mode and behind a quoted metric name); L4 the whole sample line - series, value, optional timestamp, optional exemplar - is read back as exactly that sample (character state machine of _parse_remaining_text, brace scans, exemplar labels); L5 HELP/TYPE/UNIT lines are read back exactly and - through a general family_step lemma - documents of families of ALL eight types - gauge, counter (with exemplars), summary, classic histogram and gaugehistogram (through _check_histogram), info, stateset, unknown - with pairwise non-clashing names parse back to exactly those families; refutation witnesses for the pinned defects (timestamp exponent, sample name, exemplar eligibility, quote toggle). Tie: byte-exact differential testing of the exposition against the extracted renderer and of the parser against the extracted parser, direct oracle parse(expose(r)) == collect(r) on generated registries (units, exemplars incl. ineligible ones, three timestamp forms) and parse(expose(parse(d))) == parse(d) on accepted documents.',
+        note='Partial: timestamps on families other than gauge/unknown and the second direction (accepted document -> expose -> parse) rest on the correspondence and the direct oracle. Hypotheses of L4/L5 are CPython facts about the number tokens (checked per case) plus what the constructors guarantee. Four known findings (int not a double, two timestamp classes at one instant, mixed-class timestamps compared through float, Histogram with a negative first bound exposed with _count but no _sum - pinned by an existing test). Trusted: as C03 plus samples.Timestamp arithmetic.',
         technique='Coq proof over executable Gallina models + differential correspondence + direct round-trip oracle',
         ref='7/C04'),
     'C05': dict(
